@@ -68,6 +68,9 @@ int main(void) {
       } else if (!strcmp(op, "imgtrunc") && ops_ntok == 2) { /* drop n bytes from the end of the image buffer */
         size_t n = strtoul(ops_tok[1], 0, 10);
         img_len = n <= img_len ? img_len - n : 0;
+      } else if (!strcmp(op, "slotload") && ops_ntok == 2) { /* the spare slot holds this image from an earlier update */
+        size_t a = strtoul(ops_tok[1], 0, 10);
+        if (a + img_len <= sizeof(sdk_flash)) memcpy(&sdk_flash[a], img, img_len); else sdk_out("BADOP");
       } else if (!strcmp(op, "flip") && ops_ntok == 3) {
         size_t o = strtoul(ops_tok[1], 0, 10);
         if (o < img_len) img[o] ^= (unsigned char)strtoul(ops_tok[2], 0, 16);
